@@ -1,5 +1,6 @@
 import IpamVerif.System
 import IpamVerif.OnePer
+import IpamVerif.Restart
 /-!
 # C10 — handling the same ClusterCIDR again has no additional effect
 -/
@@ -174,5 +175,44 @@ theorem one_entry_per_object_always (s : Sys) (hs : ∀ key name, entriesFor s.a
 /-- in particular from the empty controller, through any number of restarts -/
 theorem one_entry_per_object_from_start (evs : List Ev) : ∀ key name, entriesFor (run Sys.init evs).alloc key name ≤ 1 :=
   one_entry_per_object_always Sys.init (fun _ _ => by simp [entriesFor, Sys.init]) evs
+
+/-! ### "…and none once it is deleted", on the fragment with restarts -/
+
+/-- **a pool exists only for an object that exists**: in every state a history of the fragment with restarts
+(`Restart.Frag3`: in particular no ClusterCIDR is deleted before the controller's finalizer is on it — finding P15)
+can reach, every mapped entry carries the name of a ClusterCIDR object the API still holds, and has the shape of the
+entry built from that object.  So a ClusterCIDR whose deletion completed contributes no pool. -/
+theorem pool_only_while_object_exists (s0 : Sys) (h0 : Restart.Inv3 s0) (evs : List Ev) (hf : Restart.Frag3All s0 evs) :
+    ∀ c ∈ (run s0 evs).alloc.ccs, ∃ o c0, getCC (run s0 evs).api.ccs c.name = some o ∧
+      Restart.builtFrom o = some c0 ∧ Shape.sh c = Shape.sh c0 := by
+  intro c hc
+  obtain ⟨o, c0, h1, h2, h3⟩ := (Restart.inv3_run evs s0 h0 hf).cci.ent (Shape.sh c) (Restart.mem_SH.mpr ⟨c, hc, rfl⟩)
+  exact ⟨o, c0, h1, h2, h3⟩
+
+/-- ... and exactly one at most *per name* (not only per selector key and name): two entries with one name are built
+from the same object, hence filed under the same key, hence the same entry -/
+theorem at_most_one_entry_per_name (s0 : Sys) (h0 : Restart.Inv3 s0) (evs : List Ev) (hf : Restart.Frag3All s0 evs) :
+    ∀ i j c d, (run s0 evs).alloc.get? i = some c → (run s0 evs).alloc.get? j = some d → c.name = d.name → i = j := by
+  intro i j c d hi hj hn
+  have hI := Restart.inv3_run evs s0 h0 hf
+  obtain ⟨o1, c1, a1, b1, e1⟩ := hI.cci.ent (Shape.sh c) (Restart.mem_SH.mpr ⟨c, List.mem_of_getElem? hi, rfl⟩)
+  obtain ⟨o2, c2, a2, b2, e2⟩ := hI.cci.ent (Shape.sh d) (Restart.mem_SH.mpr ⟨d, List.mem_of_getElem? hj, rfl⟩)
+  rw [Restart.shName_sh] at a1 a2
+  rw [hn, a2] at a1; cases a1
+  rw [b2] at b1; cases b1
+  have hk : OnePer.kn c = OnePer.kn d := by
+    obtain ⟨k1, n1, _⟩ := Restart.kn_of_sh e1
+    obtain ⟨k2, n2, _⟩ := Restart.kn_of_sh e2
+    unfold OnePer.kn; rw [k1, k2, n1, n2]
+  -- one entry per (key, name)
+  have hnd : (OnePer.KN (run s0 evs).alloc).Nodup := hI.one
+  unfold OnePer.KN at hnd
+  unfold Alloc.get? at hi hj
+  have hil := (List.getElem?_eq_some_iff.mp hi).1
+  have hjl := (List.getElem?_eq_some_iff.mp hj).1
+  have h1 : ((run s0 evs).alloc.ccs.map OnePer.kn)[i]? = some (OnePer.kn c) := by rw [List.getElem?_map, hi]; rfl
+  have h2 : ((run s0 evs).alloc.ccs.map OnePer.kn)[j]? = some (OnePer.kn d) := by rw [List.getElem?_map, hj]; rfl
+  rw [← hk] at h2
+  exact (List.getElem?_inj (by simpa using hil) hnd).mp (h1.trans h2.symm)
 
 end Ipam.C10
